@@ -1,9 +1,12 @@
 (* C08 - property theorems. *)
 From ASV.C08 Require Import Model Proofs.
 
-(* look-up, exact under the guard: when every gene is a single non-empty part and along the sorted gene
-   list starts and ends are non-decreasing (no gene strictly nested in another), a simple query returns
-   exactly the genes it contains (with_overlapping: contains or shares a base with), in list order *)
+(* look-up, exact for EVERY gene layout (repair of findings F13a nested_genes / F13b origin_spanning_gene): when the gene
+   list is in the order of Feature.__lt__ and every gene is one the Feature constructor accepts with non-empty exons
+   (layout_ok: >= 1 part, every part 0 <= start < end, an origin-crossing location splits at the origin) - genes nested in
+   each other, sharing starts or ends, multi-exon, crossing the origin, in any number -, a simple query returns exactly
+   the genes it contains (with_overlapping: contains or shares a base with), in list order = what a scan of the whole
+   list returns *)
 Theorem C08_lookup : forall genes q wo,
   layout_ok genes = true -> is_compound q = false -> query_ok (clamp q) = true ->
   lookup genes q wo = filter (hit (clamp q) wo) genes.
@@ -28,19 +31,23 @@ Theorem C08_lookup_sound : forall genes q wo g, In g (lookup genes q wo) ->
 Proof. exact lookup_sound. Qed.
 Print Assumptions C08_lookup_sound.
 
-(* without the guard the statement is false: nested genes (finding class nested_genes) *)
-Theorem C08_lookup_refuted_nested : exists gs st q,
-  build_genes gs = Ok st /\ forallb simple_gene gs = true /\ query_ok q = true /\
-  lookup (sgenes st) q false <> filter (hit q false) (sgenes st).
-Proof. exact lookup_refuted_nested. Qed.
-Print Assumptions C08_lookup_refuted_nested.
+(* formerly C08_lookup_refuted_nested (the unguarded statement was false).  Now positive: on the list add_cds_feature
+   builds from single-part genes supplied in ANY order - nested in each other in any way, no condition on the sign of the
+   coordinates - every simple query returns exactly its hits, in list order *)
+Theorem C08_lookup_nested : forall gs st q wo,
+  build_genes gs = Ok st -> forallb simple_gene gs = true -> is_compound q = false -> query_ok (clamp q) = true ->
+  lookup (sgenes st) q wo = filter (hit (clamp q) wo) (sgenes st).
+Proof. exact lookup_nested. Qed.
+Print Assumptions C08_lookup_nested.
 
-(* ... and a gene spanning the origin (finding class origin_spanning_gene) *)
-Theorem C08_lookup_refuted_origin : exists gs st q,
-  build_genes gs = Ok st /\ query_ok q = true /\
-  lookup (sgenes st) q true <> filter (hit q true) (sgenes st).
-Proof. exact lookup_refuted_origin. Qed.
-Print Assumptions C08_lookup_refuted_origin.
+(* formerly C08_lookup_refuted_origin.  Now positive: on the list add_cds_feature builds from ANY genes the Feature
+   constructor accepts (multi-exon, origin-crossing ones included; add_cds_feature keeps the list in the order of
+   Feature.__lt__, so the hypothesis key_sorted of C08_lookup is discharged) every simple query returns exactly its hits *)
+Theorem C08_lookup_origin : forall gs st q wo,
+  build_genes gs = Ok st -> forallb gene_ok gs = true -> is_compound q = false -> query_ok (clamp q) = true ->
+  lookup (sgenes st) q wo = filter (hit (clamp q) wo) (sgenes st).
+Proof. exact lookup_built. Qed.
+Print Assumptions C08_lookup_origin.
 
 (* gene added after the areas: the slice of the (disjoint, ascending) region list that _link_cds_to_parent
    inspects contains every region that contains the gene - so for regions the bisected window finds what an
@@ -63,9 +70,9 @@ Proof. exact add_cds_contained. Qed.
 Print Assumptions C08_add_cds_contained.
 
 (* THE HISTORY THEOREM.  For every list of operations (add_cds_feature / add_protocluster, add_candidate_cluster,
-   add_subregion / add_region in ANY interleaving) that satisfies the guard - single-part genes none of which is
-   strictly nested in another (this excludes the two recorded look-up classes nested_genes and
-   origin_spanning_gene), single-part areas, unique identifiers - and that the record accepts (no exception),
+   add_subregion / add_region in ANY interleaving) that satisfies the guard - single-part genes (nested in each other
+   or not: since the repair of F13a the guard no longer asks for "none strictly nested"), single-part areas, unique
+   identifiers - and that the record accepts (no exception),
    the final record has: exactly the genes of the history; exactly its areas; every area lists exactly the genes
    its location contains; every protocluster's definition genes are exactly the genes inside its location and
    core that carry a CORE annotation for its product (string equality); every region is in the region list; every
@@ -104,6 +111,26 @@ Example C08_ex_lookup_guard :
   layout_ok genes = true /\ is_compound q = false /\ query_ok (clamp q) = true /\
   map gid (lookup genes q false) = [0; 1; 2] /\ map gid (lookup genes q true) = [0; 1; 2; 3].
 Proof. vm_compute. repeat split. Qed.
+
+(* the witness of the repaired defect F13a: [8:19) lies inside the query although [6:23) and [6:26), sorted before it, do not *)
+Example C08_ex_lookup_nested :
+  let gs := [mkGene 0 [mkPart 6 10 1] []; mkGene 1 [mkPart 6 23 1] []; mkGene 2 [mkPart 6 26 1] []; mkGene 3 [mkPart 8 19 1] []] in
+  exists st, build_genes gs = Ok st /\ layout_ok (sgenes st) = true /\
+    map gid (lookup (sgenes st) [mkPart 5 20 1] false) = [0; 3] /\
+    map gid (lookup (sgenes st) [mkPart 20 22 1] true) = [1; 2].
+Proof. eexists. split; [vm_compute; reflexivity|]. vm_compute. repeat split. Qed.
+
+(* the witness of the repaired defect F13b: the gene crossing the origin is found by a query before the origin, by one
+   after it, listed first by a simple query and between the genes before and after the origin by a wrapped query *)
+Example C08_ex_lookup_origin :
+  let gs := [mkGene 1 [mkPart 10 14 1] []; mkGene 2 [mkPart 20 30 1] []; mkGene 0 [mkPart 35 40 1; mkPart 0 4 1] [];
+             mkGene 3 [mkPart 32 37 1] []] in
+  exists st, build_genes gs = Ok st /\ layout_ok (sgenes st) = true /\
+    map gid (lookup (sgenes st) [mkPart 36 40 1] true) = [0; 3] /\
+    map gid (lookup (sgenes st) [mkPart 2 12 1] true) = [0; 1] /\
+    map gid (lookup (sgenes st) [mkPart 31 40 1; mkPart 0 12 1] true) = [3; 0; 1] /\
+    map gid (lookup (sgenes st) [mkPart 31 40 1; mkPart 0 12 1] false) = [3; 0].
+Proof. eexists. split; [vm_compute; reflexivity|]. vm_compute. repeat split. Qed.
 
 (* the witness of the repaired defect F30: a gene equal to the first of three regions lies in the window *)
 Example C08_ex_link_window :
